@@ -18,7 +18,7 @@ use hutil::{Args, Log, Rng, Stats};
 #[derive(Clone, Debug)]
 enum Op {
     Case(u64),
-    Spawn(usize, Option<usize>),
+    Spawn(usize, Option<usize>, Option<String>),
     PollSpawn(usize),
     DropSpawn(usize),
     Poll(usize),
@@ -28,14 +28,22 @@ enum Op {
     Stop(usize, Option<String>),
     Kill(usize),
     Drain(usize),
+    Wait(u32, usize),
+    PollWait(u32),
+    Call(u32, usize),
+    PollCall(u32),
 }
 
 impl std::fmt::Display for Op {
     fn fmt(&self, f: &mut std::fmt::Formatter<'_>) -> std::fmt::Result {
         match self {
             Op::Case(n) => write!(f, "case {n}"),
-            Op::Spawn(a, Some(p)) => write!(f, "spawn {a} sup={p}"),
-            Op::Spawn(a, None) => write!(f, "spawn {a} sup=-"),
+            Op::Spawn(a, sup, name) => write!(
+                f,
+                "spawn {a} sup={} name={}",
+                sup.map(|p| p.to_string()).unwrap_or_else(|| "-".into()),
+                name.clone().unwrap_or_else(|| "-".into())
+            ),
             Op::PollSpawn(a) => write!(f, "pollspawn {a}"),
             Op::DropSpawn(a) => write!(f, "dropspawn {a}"),
             Op::Poll(a) => write!(f, "poll {a}"),
@@ -46,6 +54,10 @@ impl std::fmt::Display for Op {
             Op::Stop(a, None) => write!(f, "stop {a} -"),
             Op::Kill(a) => write!(f, "kill {a}"),
             Op::Drain(a) => write!(f, "drain {a}"),
+            Op::Wait(w, a) => write!(f, "wait {w} {a}"),
+            Op::PollWait(w) => write!(f, "pollwait {w}"),
+            Op::Call(k, a) => write!(f, "call {k} {a}"),
+            Op::PollCall(k) => write!(f, "pollcall {k}"),
         }
     }
 }
@@ -57,8 +69,21 @@ fn parse_op(line: &str) -> Option<Op> {
         ["case", k] => Op::Case(k.parse().ok()?),
         ["spawn", a, sup] => {
             let s = sup.strip_prefix("sup=")?;
-            Op::Spawn(n(a)?, if s == "-" { None } else { Some(n(s)?) })
+            Op::Spawn(n(a)?, if s == "-" { None } else { Some(n(s)?) }, None)
         }
+        ["spawn", a, sup, name] => {
+            let s = sup.strip_prefix("sup=")?;
+            let nm = name.strip_prefix("name=")?;
+            Op::Spawn(
+                n(a)?,
+                if s == "-" { None } else { Some(n(s)?) },
+                if nm == "-" { None } else { Some(nm.to_string()) },
+            )
+        }
+        ["wait", w, a] => Op::Wait(w.parse().ok()?, n(a)?),
+        ["pollwait", w] => Op::PollWait(w.parse().ok()?),
+        ["call", k, a] => Op::Call(k.parse().ok()?, n(a)?),
+        ["pollcall", k] => Op::PollCall(k.parse().ok()?),
         ["pollspawn", a] => Op::PollSpawn(n(a)?),
         ["dropspawn", a] => Op::DropSpawn(n(a)?),
         ["poll", a] => Op::Poll(n(a)?),
@@ -78,6 +103,10 @@ struct Run {
     stats: Stats,
     /// fresh numbers for messages / error texts within a case
     ctr: u32,
+    /// calls / waits whose future is still pending, reply ports held by an actor
+    pending_calls: Vec<u32>,
+    pending_waits: Vec<u32>,
+    held: std::collections::HashMap<usize, Vec<u32>>,
 }
 
 impl Run {
@@ -90,7 +119,9 @@ impl Run {
         let n = self.w.actors.len();
         match op {
             Op::Case(_) => true,
-            Op::Spawn(a, sup) => *a == n && sup.is_none_or(|p| p < n && self.w.me(p).is_some()),
+            Op::Spawn(a, sup, _) => *a == n && sup.is_none_or(|p| p < n && self.w.me(p).is_some()),
+            Op::Wait(_, a) | Op::Call(_, a) => *a < n,
+            Op::PollWait(_) | Op::PollCall(_) => true,
             Op::PollSpawn(a) | Op::DropSpawn(a) | Op::Poll(a) | Op::Abort(a) | Op::Resume(a, _) => *a < n,
             Op::Send(a, _) | Op::Stop(a, _) | Op::Kill(a) | Op::Drain(a) => *a < n,
         }
@@ -103,15 +134,38 @@ impl Run {
         }
         let open_of = |w: &World, a: usize| w.actors[a].open.clone().unwrap_or_else(|| "none".into());
         match &op {
-            Op::Case(_) => {
+            Op::Case(id) => {
                 self.w.cleanup().await;
                 self.w.eng.reset();
+                *self.w.sh.tag.lock().unwrap() = format!("c{id}-");
                 self.ctr = 0;
+                self.pending_calls.clear();
+                self.pending_waits.clear();
+                self.held.clear();
                 self.stats.bump("case");
             }
-            Op::Spawn(_, sup) => {
+            Op::Spawn(_, sup, name) => {
                 self.stats.bump(if sup.is_some() { "op.spawn-linked" } else { "op.spawn" });
-                self.w.spawn(*sup);
+                if name.is_some() {
+                    self.stats.bump("op.spawn-named");
+                }
+                self.w.spawn_named(*sup, name.as_deref());
+            }
+            Op::Wait(w, a) => {
+                self.stats.bump("op.wait");
+                self.w.wait(*w, *a);
+            }
+            Op::PollWait(w) => {
+                self.stats.bump("op.pollwait");
+                self.w.pollwait(*w);
+            }
+            Op::Call(k, a) => {
+                self.stats.bump("op.call");
+                self.w.call(*k, *a);
+            }
+            Op::PollCall(k) => {
+                self.stats.bump("op.pollcall");
+                self.w.pollcall(*k);
             }
             Op::PollSpawn(a) => {
                 self.stats.bump("op.pollspawn");
@@ -144,6 +198,7 @@ impl Run {
                         Fx::KillSelf => "fx.killself",
                         Fx::Reply(..) => "fx.reply",
                         Fx::Forget(_) => "fx.forget",
+                        Fx::Join(_) => "fx.join",
                     });
                 }
                 self.w.resume(*a, seg.clone());
@@ -176,7 +231,44 @@ impl Run {
                 ["emit", _, kind, ..] => self.stats.bump(&format!("obs.emit.{kind}")),
                 ["cancelled", _, cb] => self.stats.bump(&format!("obs.cancelled.{cb}")),
                 ["ret", r] if matches!(op, Op::Spawn(..) | Op::PollSpawn(_)) => {
+                    let r = if r.starts_with("Err(startup:") { "Err(startup)" } else { r };
                     self.stats.bump(&format!("obs.spawn.{r}"))
+                }
+                ["call", k, r] => {
+                    self.stats.bump(&format!("obs.call.{}", r.split('(').next().unwrap_or(r)));
+                    if let Ok(k) = k.parse::<u32>() {
+                        if *r == "Pending" {
+                            if !self.pending_calls.contains(&k) {
+                                self.pending_calls.push(k);
+                            }
+                        } else {
+                            self.pending_calls.retain(|x| *x != k);
+                        }
+                    }
+                }
+                ["wait", w0, r] => {
+                    self.stats.bump(&format!("obs.wait.{r}"));
+                    if let Ok(w0) = w0.parse::<u32>() {
+                        if *r == "Pending" {
+                            if !self.pending_waits.contains(&w0) {
+                                self.pending_waits.push(w0);
+                            }
+                        } else {
+                            self.pending_waits.retain(|x| *x != w0);
+                        }
+                    }
+                }
+                ["enter", a, "handle", c] if c.starts_with("call") => {
+                    if let (Ok(a), Ok(k)) = (a.parse::<usize>(), c[4..].parse::<u32>()) {
+                        self.held.entry(a).or_default().push(k);
+                    }
+                }
+                ["fx", "reply", k, ..] | ["fx", "forget", k, ..] => {
+                    if let Ok(k) = k.parse::<u32>() {
+                        for v in self.held.values_mut() {
+                            v.retain(|x| *x != k);
+                        }
+                    }
                 }
                 ["join", _, r] => self.stats.bump(&format!("obs.join.{r}")),
                 _ => {}
@@ -227,10 +319,26 @@ impl Run {
             }
         }
         self.drive(8).await;
+        for k in self.pending_calls.clone() {
+            self.exec(Op::PollCall(k)).await;
+        }
+        for w0 in self.pending_waits.clone() {
+            self.exec(Op::PollWait(w0)).await;
+        }
     }
 
-    fn rand_seg(&mut self, rng: &mut Rng, wild: u64, p_fail: u64) -> Seg {
+    fn rand_seg(&mut self, rng: &mut Rng, a: usize, wild: u64, p_fail: u64) -> Seg {
         let mut fx = Vec::new();
+        if rng.chance(8, 100) {
+            fx.push(Fx::Join(format!("g{}", rng.range(1, 2))));
+        }
+        if let Some(k) = self.held.get(&a).and_then(|v| v.first().copied()) {
+            if rng.chance(60, 100) {
+                fx.push(if rng.chance(4, 5) { Fx::Reply(k, self.fresh()) } else { Fx::Forget(k) });
+            }
+        } else if rng.chance(1, 100) {
+            fx.push(Fx::Reply(999, 1));
+        }
         if rng.chance(20, 100) {
             let m = self.fresh();
             fx.push(Fx::SendSelf(m));
@@ -273,7 +381,8 @@ impl Run {
             if n < n_target {
                 let with_cell: Vec<usize> = (0..n).filter(|&p| self.w.me(p).is_some()).collect();
                 let sup = if !with_cell.is_empty() && rng.chance(8, 10) { Some(*rng.pick(&with_cell)) } else { None };
-                cand.push((if n == 0 { 1000 } else { 40 }, Op::Spawn(n, sup)));
+                let name = if rng.chance(3, 10) { Some(format!("n{}", rng.range(1, 2))) } else { None };
+                cand.push((if n == 0 { 1000 } else { 40 }, Op::Spawn(n, sup, name)));
             }
             for a in 0..n {
                 let (sa, tl, open, pend, runnable) = {
@@ -290,7 +399,7 @@ impl Run {
                     cand.push((3 * wild, Op::Abort(a)));
                 }
                 if live && open && !pend {
-                    let seg = self.rand_seg(rng, wild, p_fail);
+                    let seg = self.rand_seg(rng, a, wild, p_fail);
                     cand.push((100, Op::Resume(a, seg)));
                 }
                 if self.w.me(a).is_some() {
@@ -301,7 +410,15 @@ impl Run {
                     let r = if rng.chance(1, 2) { Some(format!("r{}", self.fresh())) } else { None };
                     cand.push(((wild + 1) * k / 2, Op::Stop(a, r)));
                     cand.push(((wild + 1) * k / 2, Op::Drain(a)));
+                    cand.push((k, Op::Call(100 + self.fresh(), a)));
+                    cand.push((k / 2, Op::Wait(100 + self.fresh(), a)));
                 }
+            }
+            for k in self.pending_calls.clone() {
+                cand.push((6, Op::PollCall(k)));
+            }
+            for w0 in self.pending_waits.clone() {
+                cand.push((6, Op::PollWait(w0)));
             }
             cand.retain(|c| c.0 > 0);
             if cand.is_empty() {
@@ -373,11 +490,11 @@ impl Run {
                     // prefix: root supervisor 0 (task spawned, never polled: events queue up),
                     // target 1 (child of 0), child 2 of the target parked in post_start
                     let mut pre: Vec<Op> = vec![
-                        Op::Spawn(0, None),
+                        Op::Spawn(0, None, None),
                         Op::Resume(0, ok()),
                         Op::PollSpawn(0),
-                        Op::Spawn(1, Some(0)),
-                        Op::Spawn(2, Some(1)),
+                        Op::Spawn(1, Some(0), None),
+                        Op::Spawn(2, Some(1), None),
                         Op::Resume(2, ok()),
                         Op::PollSpawn(2),
                         Op::Poll(2),
@@ -394,7 +511,7 @@ impl Run {
                     match *phase {
                         "handle" => pre.extend([Op::Send(1, 100), Op::Poll(1)]),
                         "sup" => pre.extend([
-                            Op::Spawn(3, Some(1)),
+                            Op::Spawn(3, Some(1), None),
                             Op::Resume(3, ok()),
                             Op::PollSpawn(3),
                             Op::Poll(3),
@@ -451,6 +568,82 @@ impl Run {
     }
 }
 
+impl Run {
+    /// C08 cut-point sweep: failure cause x await point (0/1 ticks before) x subset of what happened
+    /// before the failure {joined a group, sent to self, a call queued, a waiter pending, named}.
+    async fn spawn_sweep(&mut self, id0: u64) -> u64 {
+        let ok = || Seg { fx: vec![], term: Term::Ok };
+        let causes = ["err", "panic", "kill", "nolink", "dropspawn"];
+        let mut id = id0;
+        for cause in causes {
+            for pre_ticks in 0..2u32 {
+                for mask in 0u32..32 {
+                    self.exec(Op::Case(id)).await;
+                    id += 1;
+                    self.stats.bump("spawnsweep.cases");
+                    let named = mask & 16 != 0;
+                    self.exec(Op::Spawn(0, None, None)).await;
+                    self.exec(Op::Resume(0, ok())).await;
+                    self.exec(Op::PollSpawn(0)).await;
+                    self.exec(Op::Spawn(1, Some(0), if named { Some("n1".into()) } else { None })).await;
+                    if pre_ticks > 0 {
+                        self.exec(Op::Resume(1, Seg { fx: vec![], term: Term::Tick })).await;
+                        self.exec(Op::PollSpawn(1)).await;
+                    }
+                    if mask & 4 != 0 {
+                        self.exec(Op::Call(100, 1)).await;
+                    }
+                    if mask & 8 != 0 {
+                        self.exec(Op::Wait(200, 1)).await;
+                    }
+                    self.exec(Op::Send(1, 7)).await;
+                    let mut fx = Vec::new();
+                    if mask & 1 != 0 {
+                        fx.push(Fx::Join("g1".into()));
+                    }
+                    if mask & 2 != 0 {
+                        fx.push(Fx::SendSelf(8));
+                    }
+                    match cause {
+                        "err" | "panic" => {
+                            let term = if cause == "err" { Term::Err(5) } else { Term::Panic(6) };
+                            self.exec(Op::Resume(1, Seg { fx, term })).await;
+                            self.exec(Op::PollSpawn(1)).await;
+                        }
+                        _ => {
+                            self.exec(Op::Resume(1, Seg { fx, term: Term::Tick })).await;
+                            self.exec(Op::PollSpawn(1)).await;
+                            match cause {
+                                "kill" => {
+                                    self.exec(Op::Kill(1)).await;
+                                    self.exec(Op::PollSpawn(1)).await;
+                                }
+                                "nolink" => {
+                                    self.exec(Op::Drain(0)).await;
+                                    self.exec(Op::Resume(1, ok())).await;
+                                    self.exec(Op::PollSpawn(1)).await;
+                                }
+                                _ => self.exec(Op::DropSpawn(1)).await,
+                            }
+                        }
+                    }
+                    // afterwards: nothing of actor 1 may be left
+                    self.exec(Op::PollCall(100)).await;
+                    self.exec(Op::PollWait(200)).await;
+                    self.exec(Op::Send(1, 9)).await;
+                    self.exec(Op::Call(101, 1)).await;
+                    self.exec(Op::Wait(201, 1)).await;
+                    self.exec(Op::PollSpawn(1)).await;
+                    self.exec(Op::Spawn(2, None, if named { Some("n1".into()) } else { None })).await;
+                    self.exec(Op::Spawn(3, None, if named { Some("n1".into()) } else { None })).await;
+                    self.finish_case().await;
+                }
+            }
+        }
+        id
+    }
+}
+
 fn main() {
     let args = Args::parse();
     let seed = args.u64("seed", 1);
@@ -467,6 +660,9 @@ fn main() {
             log: Log::create(std::path::Path::new(&out)).expect("out dir"),
             stats: Stats::default(),
             ctr: 0,
+            pending_calls: Vec::new(),
+            pending_waits: Vec::new(),
+            held: Default::default(),
         };
         // 1. corpus (minimised past failures, finding witnesses)
         for f in corpus.split(',').filter(|f| !f.is_empty()) {
@@ -487,6 +683,7 @@ fn main() {
         let mut id = 1_000_000;
         if do_sweep {
             id = run.sweep(id).await;
+            id = run.spawn_sweep(id).await;
         }
         let _ = id;
         // 3. structured random cases
